@@ -16,6 +16,7 @@ mod c06;
 mod c17;
 mod c03;
 mod c08;
+mod c15;
 mod c19;
 mod c20;
 
@@ -39,6 +40,7 @@ fn main() {
         "c17" => c17::run(rest),
         "c03" => c03::run(rest),
         "c08" | "c09" => c08::run(rest),
+        "c15" => c15::run(rest),
         "c19" => c19::run(rest),
         "c20" => c20::run(rest),
         "c01" | "c02" => c01::run(rest),
